@@ -24,7 +24,9 @@ WORDS = [b'foo', b'bar', b'Foo', b'baz', b'a', b'b', b'ab', b'x y', b'caf\xc3\xa
          b'/', b'.go', b'src', b'', b' ', b'  lead', b'trail  ', b'\t']
 
 
-def gen_pipe_case(r):
+def gen_pipe_case(r, pid=None):
+    if pid == 'C11':
+        return gen_pipe_case_ansi(r)
     read0 = r.random() < 0.3
     print0 = r.random() < 0.3
     printq = r.random() < 0.3
@@ -62,6 +64,31 @@ def gen_pipe_case(r):
                 stream=stream, chunks=r.choice([1, 1, 7, 64, 4096, 65536]), seed=r.randint(0, 10**6))
 
 
+def gen_pipe_case_ansi(r):
+    """--ansi through the whole pipeline: records with and without ESC bytes, backspace overstrikes, shift-out / shift-in,
+    OSC-8 links and colours that stay open into the next record."""
+    n = r.choice([1, 2, 3, 5, 8, 20])
+    pieces = [b'\x1b[31m', b'\x1b[1;32m', b'\x1b[m', b'\x1b[38;5;200m', b'\x1b[K', b'\x1b[0m', b'\x0e', b'\x0f', b'\x08', b'o\x08x', b'N\x08N',
+              b'\x1b]8;;http://x\x1b\\', b'\x1b]8;;\x1b\\', b'\x1b(B', b'\x1b[48;2;1;2;3m', b'_\x08a']
+    noesc = [b'\x0e', b'\x0f', b'\x08', b'o\x08x', b'N\x08N', b'_\x08a']
+    recs = []
+    for _ in range(n):
+        k = r.randint(1, 3)
+        parts = [r.choice(WORDS) for _ in range(k)]
+        rec = r.choice([b' ', b'/', b'']).join(parts)
+        pool = noesc if r.random() < 0.5 else pieces      # half of the records hold no ESC byte at all
+        for _ in range(r.randint(0, 3)):
+            i = r.randint(0, len(rec))
+            while i < len(rec) and (rec[i] & 0xC0) == 0x80:
+                i += 1
+            rec = rec[:i] + r.choice(pool) + rec[i:]
+        recs.append(rec.replace(b'\n', b''))
+    stream = b'\n'.join(recs) + (b'\n' if r.random() < 0.8 else b'')
+    q = r.choice([b'', b'', b'a', b'foo', b'fx', b'ox', b'N', b"'a", b'b'])
+    return dict(read0=False, print0=r.random() < 0.2, printq=False, ansi=True, sort=r.random() < 0.6, tac=r.random() < 0.2, withnth='-', delim='awk',
+                query=q, stream=stream, chunks=r.choice([1, 7, 4096]), seed=r.randint(0, 10**6), nocolor=r.random() < 0.4)
+
+
 def pipe_args(c):
     a = ['--scheme=default']
     if c['read0']:
@@ -72,6 +99,8 @@ def pipe_args(c):
         a.append('--print-query')
     if c['ansi']:
         a.append('--ansi')
+    if c.get('nocolor'):
+        a.append('--no-color')
     if not c['sort']:
         a.append('--no-sort')
     if c['tac']:
@@ -120,7 +149,7 @@ def drv_pipe(tier, seed, ctx):
     from vcheck import evaluate
     n = 150 if tier == 'quick' else 6000
     r = random.Random(seed * 7919 + 11)
-    cases = [gen_pipe_case(r) for _ in range(n)]
+    cases = [gen_pipe_case(r, ctx.get('pid')) for _ in range(n)]
 
     def work(c):
         rc, out, crashed = run_pipe_case(ctx['fzf'], c)
